@@ -103,6 +103,29 @@ pub fn load(corpus: &str) -> Vec<Def> {
     load_only(corpus, None)
 }
 
+/// the definitions of one child: its shard (or single definition) and, for C12, their utf8=false twins
+pub fn load_selected(args: &Args) -> Vec<Def> {
+    let text = std::fs::read_to_string(&args.corpus).expect("corpus.json");
+    let entries: Vec<Entry> = serde_json::from_str(&text).expect("corpus json");
+    let mine = |e: &Entry| args.only.map_or(true, |o| o == e.idx) && args.shard.map_or(true, |(i, n)| e.idx % n == i);
+    let mut keep: std::collections::BTreeSet<usize> = entries.iter().filter(|e| mine(e)).map(|e| e.idx).collect();
+    if args.prop == "C12" {
+        let twins: Vec<usize> = entries.iter().filter(|e| keep.contains(&e.idx)).filter_map(|e| entries.iter().find(|t| t.name == format!("{}__b", e.name)).map(|t| t.idx)).collect();
+        keep.extend(twins);
+    }
+    entries
+        .into_par_iter()
+        .filter(|e| keep.contains(&e.idx))
+        .map(|e| {
+            let bounds = e.graph.range_boundaries();
+            let fallback: Vec<usize> = e.graph.leaves.iter().map(|l| l.priority).collect();
+            let info = analysis::analyse(&e.spec, &bounds, Some(&fallback), 200_000).unwrap_or_else(|m| panic!("compiled definition {} has no reference: {m:?}", e.name));
+            let skip = e.spec.pats.iter().map(|p| p.kind == Kind::Skip).collect();
+            Def { e, info, skip }
+        })
+        .collect()
+}
+
 pub fn load_only(corpus: &str, only: Option<usize>) -> Vec<Def> {
     let text = std::fs::read_to_string(corpus).expect("corpus.json");
     let entries: Vec<Entry> = serde_json::from_str(&text).expect("corpus json");
@@ -127,7 +150,7 @@ fn main() {
         "layer2" => {
             if args.shard.is_some() || args.only.is_some() {
                 // child: one slice of the corpus, in-process
-                let defs: Vec<Def> = load_only(&args.corpus, args.only).into_iter().filter(|d| args.shard.map_or(true, |(i, n)| d.e.idx % n == i)).collect();
+                let defs: Vec<Def> = load_selected(&args);
                 props::layer2(&args, &defs, &mut rep);
             } else {
                 props::layer2_sharded(&args, &mut rep);
